@@ -1,9 +1,9 @@
 (* C04 — the equivalence checker decides equivalence correctly in both directions (decision rule).
    PARTIAL: that the MPO handed to the verdict is U1.U2^dagger (zone-by-zone construction with SVD re-splitting and
    long-range gate MPOs) is tied numerically (dense product for arbitrary pairs) and not mechanised. *)
-From Coq Require Import Reals.
+From Coq Require Import Reals PrimFloat.
 From Coquelicot Require Import Coquelicot.
-From Yaqs Require Import Base.Num Model.Verdict Proofs.NoiseAttribP Proofs.VerdictP.
+From Yaqs Require Import Base.Num Model.Verdict Proofs.NoiseAttribP Proofs.VerdictP Gen.SmallGen Proofs.SmallGenP.
 
 Theorem C04_verdict_sound : forall t n f e, (t / 2 ^ n < f - e)%R -> verdict RN t n f e = false.
 Proof. exact verdict_sound. Qed.
@@ -17,3 +17,14 @@ Print Assumptions C04_equal_unitaries_are_equivalent.
 Theorem C04_verdict_symmetric : forall (z : C) n f e, verdict RN (Cmod (Cconj z)) n f e = verdict RN (Cmod z) n f e.
 Proof. exact verdict_symmetric. Qed.
 Print Assumptions C04_verdict_symmetric.
+
+(* tie to the source by translation: Gen/SmallGen.verdict_src is regenerated from MPO.check_if_identity on every run; it is the
+   binary64 instance of the model with the allowance written in the source (the double 1e-9, which is non-negative as
+   verdict_complete requires) *)
+Theorem C04_source_verdict_is_model : forall abs_trace n fidelity,
+  verdict_src abs_trace n fidelity = verdict FN abs_trace n fidelity verdict_eps.
+Proof. exact verdict_src_is_model. Qed.
+Print Assumptions C04_source_verdict_is_model.
+Theorem C04_source_allowance_nonnegative : PrimFloat.leb 0%float verdict_eps = true.
+Proof. exact verdict_eps_nonneg. Qed.
+Print Assumptions C04_source_allowance_nonnegative.
